@@ -13,6 +13,8 @@ and for every configuration every (chain, entry point, path form) case:
         world vectors, checked through SimpleITK) -> read (WORLD label) -> .axes(start) returns the
         original; explicit form write(axes=a) / read(axes=a) returns the stored tensor exactly
 
+  layout (reduced menu) the data tensor that is written is a non-contiguous view (transposed, step-sliced, stride-0
+        expanded channels): file content (SimpleITK) and read-back equal its values exactly, operand untouched
   entry points: write_image/read_image, Image.write/Image.read(align_corners=flag), Image.to_uri/from_uri;
   path forms str, pathlib.Path, file:// URI.
 Oracle: voxel values equal exactly (value-wise, and the dtype is the stored dtype), channel count, size;
@@ -80,12 +82,12 @@ def _sweep_stale_tmp(prefix="c18-", older_than_s=3600.0):
 PROPERTY = "C18"
 RULE = (
     "complete product format x D x channels x dtype x grid x compress (x size, thorough) and, per configuration, every "
-    "(chain in {d2d, s2d, flow}, entry point, path form / start representation) case, each a chain of <= 2 write->read "
+    "(chain in {d2d, s2d, flow, layout}, entry point, path form / start representation / memory layout of the written tensor) case, each a chain of <= 2 write->read "
     "rounds on real files in a private temp directory; distinct outcome = (stage statuses, bytes of the data read back, "
     "grid read back); non-trivial = a chain that completed a read whose data has > 4 distinct values on a grid or layout "
     "that differs from the default (non-default grid, > 1 channel, or D = 2)"
 )
-EXPLANATION = "exhaustive enumeration of the I/O configuration space with write->read chains judged against numpy/SimpleITK"
+EXPLANATION = "exhaustive enumeration of the I/O configuration space (incl. non-contiguous data on a reduced menu) with write->read chains judged against numpy/SimpleITK"
 ASSUMPTIONS = [
     "SimpleITK 2.5 (ITK MetaIO / NIfTI / NRRD readers and writers) and numpy are the trusted base; a format/dtype that SimpleITK itself cannot write or does not preserve is counted as undefined for the s2d direction",
     "header tolerances (copies, not computations): 8 ulp(float32) = 8 x 2^-23 x (|center| + extent) for origin (origin<->center conversions inside Grid, worst case 5.5 ulp), 8 x 2^-23 relative for spacing, 8 x 2^-23 absolute for direction cosines; measured <= 0.7 ulp; grids 'scan' and 'fine' need all 9 significant digits",
@@ -95,7 +97,7 @@ ASSUMPTIONS = [
 ]
 MIN_NONTRIVIAL = {"quick": 7500, "thorough": 35000}
 MIN_OUTCOMES = {"quick": 800, "thorough": 3800}
-MIN_SUB_TRACES = {"d2d": 3600, "s2d": 3600, "flow": 600}
+MIN_SUB_TRACES = {"d2d": 3600, "s2d": 3600, "flow": 600, "layout": 200}
 
 EPS32 = 2.0 ** -23
 C = 64.0  # computed quantities (flow vector conversions)
@@ -194,7 +196,8 @@ def bounds(tier):
         "compress": [True, False], "sizes": {"2": [list(s) for s in sizes(2, tier)], "3": [list(s) for s in sizes(3, tier)]},
         "singleton_sizes": {"2": [list(s) for s in singleton_sizes(2)], "3": [list(s) for s in singleton_sizes(3)]},
         "singleton_factors": {"channels": list(singleton_factors(tier, 3)[0]), "dtypes": list(singleton_factors(tier, 3)[1]), "grids": list(singleton_factors(tier, 3)[2])},
-        "configurations": len(configs(tier, 0)), "chains": ["d2d", "s2d", "flow"],
+        "configurations": len(configs(tier, 0)), "chains": ["d2d", "s2d", "flow", "layout"],
+        "layout": {"forms": list(LAYOUTS), "entries": ["write_image", "Image.write", "FlowField.write"], "menu": "grid scan x regular size x dtypes {int16, float32} x channels {1, D} x compress {T,F} x every format"},
         "entry_points": ["write_image/read_image", "Image.write/Image.read", "Image.to_uri/Image.from_uri", "Grid.from_file", "FlowField.write/read"],
         "path_forms": ["str", "pathlib.Path", "file:// URI (Image.to_uri/from_uri)"], "max_write_read_rounds": 2,
     }
@@ -699,6 +702,81 @@ def run_flow(cfg, start: str, explicit: bool, pform: str, tmp: str) -> Rec:
 
 
 # ---------------------------------------------------------------------------
+# MEMORY LAYOUT of the data that is written (transposed view, step-sliced view, stride-0 expanded channels)
+LAYOUTS = ("transposed", "sliced", "expanded")
+
+
+def layout_enabled(cfg) -> bool:
+    return (cfg["gk"] == "scan" and min(cfg["size"]) > 1 and cfg["size"] == list(sizes(cfg["D"], "quick")[0])
+            and cfg["dt"] in ("int16", "float32") and cfg["C"] in (1, cfg["D"]))
+
+
+def run_layout(cfg, entry: str, layout: str, tmp: str) -> Rec:
+    """Write a NON-CONTIGUOUS data tensor; the file must hold exactly its values (SimpleITK and the library agree)."""
+    import SimpleITK as sitk
+    from deepali.core.grid import Axes
+    from deepali.data.flow import FlowField
+    from ref import layout as L
+
+    rec = Rec()
+    pre = f"C18/layout/{entry}/fmt={cfg['fmt']}/D={cfg['D']}/ch={'1' if cfg['C'] == 1 else 'n'}/layout={layout}"
+    r = rg.ref_grid(cfg["grid"])
+    data = make_data(cfg)
+    if layout == "expanded":
+        if cfg["C"] == 1:
+            return rec
+        base = torch.from_numpy(data[0].copy())
+        t = L.relayout(base, "expanded", n=cfg["C"])  # all channels are one stride-0 view
+        data = np.repeat(data[:1], cfg["C"], axis=0)
+    else:
+        t0 = torch.from_numpy(data.copy())
+        if not L.applicable(t0, layout):
+            rec.undef.append("layout: form not applicable to this shape")
+            return rec
+        t = L.relayout(t0, layout)
+    if t.is_contiguous() or not np.array_equal(t.numpy(), data):
+        rec.undef.append("layout: variant is contiguous or not equal (harness)")
+        return rec
+    # values and strides only: the statement is about what a round trip returns, and the comparison below uses the
+    # operand after writing; the autograd version counter of the written tensor is outside it (DESIGN 11.3, C18)
+    before = (t.numpy().tobytes(), tuple(t.stride()))
+    st, grid = guarded(rg.real_grid, cfg["grid"])
+    if st == "raises":
+        rec.add(f"C18/construct-grid/raises={type(grid).__name__}", exc_text(grid))
+        return rec
+    d1 = os.path.join(tmp, "a")
+    os.makedirs(d1, exist_ok=True)
+    p1 = os.path.join(d1, file_name(cfg, "img"))
+    if entry == "FlowField":
+        st, res = rec.call(lambda: FlowField(t, grid, Axes("world")).write(p1, compress=cfg["compress"]))
+    else:
+        st, res = do_write(rec, entry, t, grid, p1, cfg["compress"])
+    rec.stages.append(("w1", st))
+    if st == "raises":
+        rec.add(f"{pre}/w1/raises={type(res).__name__}", exc_text(res))
+        return rec
+    if (t.numpy().tobytes(), tuple(t.stride())) != before:
+        rec.add(f"{pre}/operand-mutated", "writing modified the data tensor (values or strides)")
+    st, img = guarded(sitk.ReadImage, p1)
+    rec.stages.append(("sitk1", st))
+    if st == "raises":
+        rec.add(f"{pre}/sitk1/unreadable", "SimpleITK cannot read the file: " + str(img).strip().split("\n")[-1][:200])
+    else:
+        judge_sitk(rec, f"{pre}/sitk1", cfg, img, data, r)
+    st, res = do_read(rec, "func", p1, True)
+    rec.stages.append(("r1", st))
+    if st == "raises":
+        rec.add(f"{pre}/r1/raises={type(res).__name__}", exc_text(res))
+        return rec
+    judge_data(rec, f"{pre}/r1", cfg, res[0], data)
+    judge_grid(rec, f"{pre}/r1", cfg, res[1], r)
+    rec.stages.append(("r1key", read_back_key(res[0], res[1]) if isinstance(res[0], torch.Tensor) else 0))
+    rec.nontrivial = True
+    rec.completed = True
+    return rec
+
+
+# ---------------------------------------------------------------------------
 def cases_of(cfg):
     out = []
     for entry in ("func", "Image"):
@@ -711,6 +789,13 @@ def cases_of(cfg):
                 continue  # extrema -1/+1 of CUBE_CORNERS coincide for a single sample: the representation does not exist
             for explicit in (False, True):
                 out.append({"chain": "flow", "start": start, "explicit": explicit, "path": "str" if (AXES.index(start) + explicit) % 2 == 0 else "Path"})
+    if layout_enabled(cfg):
+        entries = ["func", "Image"] + (["FlowField"] if cfg["C"] == cfg["D"] and cfg["dt"] == "float32" else [])
+        for entry in entries:
+            for lay in LAYOUTS:
+                if lay == "expanded" and cfg["C"] == 1:
+                    continue
+                out.append({"chain": "layout", "entry": entry, "layout": lay})
     return out
 
 
@@ -727,6 +812,8 @@ def run_case(cfg, case) -> Rec:
             return run_d2d(cfg, case["entry"], case["path"], tmp)
         if case["chain"] == "s2d":
             return run_s2d(cfg, case["entry"], case["path"], tmp)
+        if case["chain"] == "layout":
+            return run_layout(cfg, case["entry"], case["layout"], tmp)
         return run_flow(cfg, case["start"], bool(case["explicit"]), case["path"], tmp)
     except Exception as e:  # noqa: BLE001 - what the library returned could not be observed at all (never crash the shard)
         rec = Rec()
